@@ -8,6 +8,9 @@ hook_commits = [l.split()[0] for l in hooks if l.split(' ',1)[1].startswith('ver
 TRUST = "Trusted: go/packages+go/ssa (x/tools v0.29.0) IR construction, the govc VC generator (exercised by the must-fail corpus in selftest/), z3 5.1.0 / cvc5 1.0.3 / z3 4.8.12, and the trusted library specifications listed under 'assumptions' in the evidence (strings.Compare, strconv.Parse*, fmt.Errorf, ...). int is 64 bit; no concurrency; callee panics are separate safety obligations."
 
 claimed = {
+ 'C05': dict(
+   text="Proof, all inputs: the range/length machinery is verified function by function against the property's acceptance predicate: RangeNumber.Compare (sign of bound-value incl. min/max, exact bit-vector/IEEE semantics, no panic), RangeEntry.CheckValue (inside [min,max] or equal to the exact value), Range.CheckValue (one alternative; every element of a leaf-list on its own), fieldConstraints.checkRange/lenCheck (EVERY level of the typedef chain), patternCheck (invert-match honoured), checkString, CheckFieldPreConstraints (incl. string leaf-lists), and Selection.set: a vetoed or failing pre-constraint issues no Field request to the node (ghost counter fieldWrites) and the veto is what is returned. Not decided: enum/bits/identityref/union membership (node.NewValue), that node implementations store nothing on error, well-formedness of range literals vs. base type (assumed: RFC 7950 9.2.4).",
+   ref="7 (C05)", technique="deductive verification: weakest-precondition VCs from go/ssa with loop invariants, opaque specification predicates and ghost state; contracts in meta/, node/, val/contracts_verif.go; discharged by z3/cvc5"),
  'C10': dict(
    text="Proof, all inputs: val.Conv and the scalar conversion helpers toInt8..toUInt64, toDecimal64, toBool are verified in exact machine semantics (bit-vectors, IEEE floats) against denotesInt/denotesFloat: a nil error implies the result denotes exactly the source number for every Go integer kind, float32/float64 (integral and in range, no rounding) and numeric strings (strconv.Parse* trusted). Not decided: the list forms (to*List), time.Time and reflect fall-backs, node.NewValue front end.",
    ref="7 (C10)", technique="deductive verification: weakest-precondition VCs from go/ssa (bit-vector + floating-point theories), contracts in val/contracts_verif.go, discharged by z3/cvc5"),
